@@ -75,6 +75,14 @@ def gen_attr(rng, used):
             return rng.choice(["m", "degrees north", "a b", "x", "1.5", "T"])
         if ty.startswith("Float"):
             return rng.choice(["1.5", "-0.25", "2", "1e-05", "6.02e+23", "0.0"])
+        if ty == "UInt64":
+            return str(rng.choice([0, 7, 2 ** 53 + 1, 2 ** 64 - 1]))
+        if ty == "Int64":
+            return str(rng.choice([0, -1, 2 ** 53 + 1, -(2 ** 53) - 1, 2 ** 63 - 1, -(2 ** 63)]))
+        if ty == "UInt32":
+            return str(rng.choice([0, 7, 2 ** 32 - 1]))
+        if ty == "Int32":
+            return str(rng.choice([0, -1, 2 ** 31 - 1, -(2 ** 31)]))
         if ty.startswith("U") or ty == "Byte":
             return str(rng.choice([0, 1, 7, 200, 255]))
         return str(rng.choice([0, 1, -1, 7, -100, 127]))
